@@ -9,7 +9,7 @@ ASSUMPTIONS = [
     "values are opaque tokens; task bodies have no side effects besides the harness record",
     "exhaustive only within the alphabet and bounds listed in coverage.bounds",
 ]
-MENU = ["leaf:lzok", "leaf:cw", "ins:sync", "ins:iv", "leaf:sh", "leaf:re", "ins:yempty", "ins:ynone", "ins:mkitem", "ins:mkchild", "wrap:try", "ins:raise", "item:err", "item:unset", "shape:T", "shape:D", "shape:nest", "leaf:n"]
+MENU = ["flush:raiseB", "leaf:lzok", "leaf:cw", "ins:sync", "ins:iv", "leaf:sh", "leaf:re", "ins:yempty", "ins:ynone", "ins:mkitem", "ins:mkchild", "wrap:try", "ins:raise", "item:err", "item:unset", "shape:T", "shape:D", "shape:nest", "leaf:n"]
 CATS = ["resumed-uncomputed", "step-count", "step-after-computed", "task-computed-twice", "task-not-computed", "awaited-not-computed", "start-order", "started-extra", "started-missing", "scheduler-residue", "provider-ran-twice", "hang", "worker-died", "r2-started", "r2-batch", "r2-flush-count", "r2-diverge"]
 _MENU42 = {"menu": ["ins:sync", "ins:iv", "leaf:sh", "leaf:re", "ins:mkchild", "wrap:try", "ins:raise", "item:err"]}
 LADDER = {"quick": [(5, 0, ["call"]), (4, 1, ["call"]), (3, 2, ["call"])],
@@ -23,6 +23,10 @@ CATS = CATS + ["deep-recursion", "deep-failed", "deep-value", "deep-flushes"]
 
 
 def jobs(tier, seed):
+    # width: one yield of n futures (list and tuple), around the 16-bit and beyond
+    for shape in ("fan-list", "fan-tuple"):
+        for n in (70000, 65537, 65536, 32769, 32768, 32767, 1000, 3, 0):
+            yield {"deep": [[shape, n]]}
     big = [d for d in DEPTHS[tier] if d > 64]
     for shape in ("chain", "chain-every", "comb"):
         for d in sorted(big, reverse=True):
@@ -73,4 +77,5 @@ def replay(case, env):
 
 def finish(acc, tier):
     return {"bounds": {"ladder (size<=n, deviations<=k, conventions)": LADDER[tier], "menu": MENU, "categories judged": CATS,
-                       "depths (chain, chain-every, comb)": DEPTHS[tier]}}
+                       "depths (chain, chain-every, comb)": DEPTHS[tier],
+                       "widths (one yield of n tasks, list and tuple)": [0, 3, 1000, 32767, 32768, 32769, 65536, 65537, 70000]}}
